@@ -499,7 +499,18 @@ def run(repo, rep, tier):
                         'wrong text (IndexError instead of MOFCompileError, '
                         'or a wrong context)'
                         % (attr, var, ' / '.join(conds[-3:]) or '-'))
-    # ---- R6: per-compile parser state ------------------------------------
+    per_compile_state_rule(repo, rep, r6)
+
+
+def per_compile_state_rule(repo, rep, r6):
+    """C09.R6 (also used as C08.R12): a parser attribute that a compile
+    entry point switches away from its __init__ default is re-assigned by
+    every entry point before parsing, or reset in a finally that covers the
+    parse calls - otherwise a failed compile leaves the same MOFCompiler in
+    that mode (e.g. the embedded-object mode, in which classes and
+    qualifier declarations are rejected and instances are collected in a
+    list instead of reaching the repository)."""
+    mc = repo.cls(MOF, 'MOFCompiler')
     # A parser attribute that a compile entry point switches away from its
     # __init__ default is either re-assigned by *every* entry point before
     # it starts parsing (so a stale value cannot survive a failed compile),
